@@ -8,6 +8,7 @@
 //                                            fallback buffer or CRC error -> next_transmit();
 //                                            valid PDU -> received();  CRC ok, MIC bad -> acknowledge();
 //                                            the more-data bit of the answer is cleared in place (issue #75 hack)
+//              ( C15_isr.hpp replaces this transcription by the real nrf52_radio_base with a scripted fake Hardware )
 // reference  : an independent central (SN / NESN bits, numbered payloads, own packet counters), the list of PDUs the
 //              peripheral acknowledged (what the upper layer has to see), bookkeeping of committed PDUs.
 //
@@ -55,17 +56,43 @@ struct Radio : bluetoe::link_layer::ll_data_pdu_buffer< TX, RX, Radio< TX, RX > 
     struct lock_guard { lock_guard() {} };
 
     std::uint8_t rx_cnt, tx_cnt;    // packet counters ( mod IDM ), what a CCM nonce would be built from
+    std::uint8_t empty_receive[ 3 ]; // nrf52_radio_base::empty_receive_
 
-    Radio() : rx_cnt( 0 ), tx_cnt( 0 ) {}
+    Radio() : rx_cnt( 0 ), tx_cnt( 0 ) { empty_receive[ 0 ] = empty_receive[ 1 ] = empty_receive[ 2 ] = 0; }
 
     void increment_receive_packet_counter()  { rx_cnt = std::uint8_t( ( rx_cnt + 1 ) % IDM ); }
     void increment_transmit_packet_counter() { tx_cnt = std::uint8_t( ( tx_cnt + 1 ) % IDM ); }
 
-    // the protected "interface to the radio hardware"
-    read_buffer  isr_allocate()                 { return this->allocate_receive_buffer(); }
-    write_buffer isr_received( read_buffer b )  { return this->received( b ); }
-    write_buffer isr_mic_failed( read_buffer b ){ return this->acknowledge( b ); }
-    write_buffer isr_next_transmit()            { return this->next_transmit(); }
+    // ---- driver: the buffer's protected "interface to the radio hardware", used like nrf52_radio_base uses it -------------
+    static constexpr bool real_isr = false;
+    static const char* dut_name() { return "ll_data_pdu_buffer driven by a transcription of the nrf52 ISR decision table"; }
+    static void extra_regions( mc::Regions& ) {}
+    template < class P > static void place( P& p ) { p.construct(); }
+
+    bool can_receive() const { return this->allocate_receive_buffer().size != 0; }
+
+    // schedule_connection_event(): receive_buffer_ = receive_buffer(); returns true, if that is the 3 byte fallback
+    bool event_begin( read_buffer& rb )
+    {
+        rb = this->allocate_receive_buffer();
+        if ( !rb.empty() ) return false;
+        rb = read_buffer{ &empty_receive[ 0 ], sizeof empty_receive };
+        return true;
+    }
+
+    // radio_interrupt_handler(), state evt_wait_connect; false: nothing is transmitted
+    bool event_radio( int fault, bool fallback, read_buffer rb, write_buffer& trans )
+    {
+        const bool valid_anchor = fault != 1, valid_crc = fault == 0 || fault == 3, valid_pdu = fault == 0;
+        if ( !valid_anchor ) return false;
+        trans = ( fallback || !valid_crc ) ? this->next_transmit()
+              : ( valid_pdu ? this->received( rb ) : this->acknowledge( rb ) );
+        if ( trans.buffer == nullptr || trans.size < 2 ) return true;
+        const_cast< std::uint8_t* >( trans.buffer )[ 0 ] = trans.buffer[ 0 ] & ~0x10;   // "Issue: #75 More Data not working"
+        return true;
+    }
+
+    bool event_end( bool ) { return true; }
 };
 
 enum { C_DATA = 0, C_EMPTY = 1, C_RETX = 2 };
@@ -97,14 +124,13 @@ struct Ref
     std::uint8_t tx_sz[ 32 ];                   // payload sizes of the PDUs not yet accepted by the central, oldest first
 };
 
-template < std::size_t TX, std::size_t RX >
+template < class Dut >
 struct World
 {
-    using dut_t  = Radio< TX, RX >;
+    using dut_t  = Dut;
     using layout = typename dut_t::layout;
 
     mc::Placed< dut_t > dut;
-    struct Hw { std::uint8_t empty_receive[ 4 ]; } hw;      // nrf52_radio_base::empty_receive_ ( 3 bytes used )
     Ref ref;
 
     // statistics only, not part of the state
@@ -118,16 +144,16 @@ struct World
     }
     std::uint64_t foreign[ 3 ] = { 0, 0, 0 };
     std::uint64_t stall_seen = 0, drains = 0;
+    mc::Regions all; std::vector< std::uint8_t > keep;     // scratch of drain()
 
     void init()
     {
-        dut.construct();
-        memset( &hw, 0, sizeof hw );
+        dut_t::place( dut );
         memset( &ref, 0, sizeof ref );
         ref.up_last = 0xff;
     }
 
-    void regions( mc::Regions& r ) { r.add( dut.raw, sizeof dut.raw ); r.add( hw ); r.add( ref ); }
+    void regions( mc::Regions& r ) { r.add( dut.raw, sizeof dut.raw ); dut_t::extra_regions( r ); r.add( ref ); }
 
     // ---------------------------------------------------------------------------------------------------------------
     // events
@@ -157,11 +183,9 @@ struct World
 
     // ---------------------------------------------------------------------------------------------------------------
     // oracle bookkeeping: owner = 15, 16, 17
-    const char* pfx = "";
-
     void viol( mc::Ctx& c, int owner, const std::string& sig, const std::string& detail )
     {
-        if ( owner == ORACLE ) { c.fail( pfx + sig, detail ); return; }
+        if ( owner == ORACLE ) { c.fail( sig, detail ); return; }
         ++foreign[ owner - 15 ];
         c.cls( mc::fmt( "pruned:oracle-of-C%d-failed", owner ) );
         // a counter mismatch leaves the delivery reference intact; everything else puts it out of step
@@ -342,9 +366,8 @@ struct World
         if ( !c.fails.empty() || c.prune ) return;
 
         // -- schedule_connection_event ------------------------------------------------------------------------------
-        read_buffer rb = dut->isr_allocate();
-        const bool full = rb.size == 0;
-        if ( full ) rb = read_buffer{ &hw.empty_receive[ 0 ], 3 };
+        read_buffer rb;
+        const bool full = dut->event_begin( rb );
 
         if ( in.uact == U_CONSUME_LATE ) do_consume( c, "after-schedule" );
         if ( !c.fails.empty() || c.prune ) return;
@@ -366,18 +389,10 @@ struct World
         const bool is_new = sn == r.r_nesn;
         const char* kind = data ? ( is_new ? "new-data" : "resent-data" ) : ( is_new ? "new-empty" : "resent-empty" );
 
-        if ( path == P_LOST )
-        {
-            // no anchor: the interrupt handler calls nothing ( evt_timeout_ )
-            if ( want_obs ) c.obs = mc::fmt( "%s lost", kind );
-            note_class( c, ( is_new ? 0 : 1 ) + ( data ? 0 : 2 ), [&]{ return mc::fmt( "lost/%s", kind ); } );
-            check_rx_ring( c, "upper-layer-only", 15 );
-            return;
-        }
-
         // -- what the radio DMA leaves in the receive buffer ---------------------------------------------------------------
         const std::uint8_t h0 = std::uint8_t( ( data ? 0x02 : 0x01 ) | ( sn ? 0x08 : 0 ) | ( nesn ? 0x04 : 0 ) );
-        if ( !full )
+        if ( path == P_LOST ) {}
+        else if ( !full )
         {
             if ( in.fcp == FT_CRC )
             {   // damaged on air: SN / NESN inverted, garbage body
@@ -398,16 +413,45 @@ struct World
         // -- radio_interrupt_handler, state evt_wait_connect ------------------------------------------------------------
         const unsigned rx_before = dut->rx_cnt, tx_before = dut->tx_cnt;
 
-        const write_buffer trans = ( path == P_FULL || path == P_CRC ) ? dut->isr_next_transmit()
-                                 :   path == P_RECEIVED                 ? dut->isr_received( rb )
-                                 :                                        dut->isr_mic_failed( rb );
+        write_buffer trans;
+        const bool answered = dut->event_radio( in.fcp, full, rb, trans );
+        if ( !dut->event_end( answered ) )
+        {
+            viol( c, 15, mc::fmt( "isr:no-event-reported:%s", path_name( path ) ), "after the radio interrupt neither a timeout nor the end of the connection event is reported to the link layer" );
+            return;
+        }
+
+        if ( !answered )
+        {
+            // no anchor: the interrupt handler calls nothing ( evt_timeout_ ); the real nrf52 ISR also stays silent on a CRC error
+            if ( path != P_LOST && !( dut_t::real_isr && in.fcp == FT_CRC ) )
+            {
+                viol( c, 15, mc::fmt( "tx:no-answer:%s", path_name( path ) ), "a PDU with a valid anchor was not answered" );
+                return;
+            }
+            if ( want_obs ) c.obs = mc::fmt( "%s %s, nothing transmitted", kind, path == P_LOST ? "lost" : path_name( path ) );
+            if ( dut->rx_cnt != rx_before )
+                viol( c, 16, "rx-counter:incremented:nothing-received", "receive packet counter advanced in an event without a valid PDU" );
+            if ( dut->tx_cnt != tx_before )
+                viol( c, 16, "tx-counter:incremented-without-acknowledge:nothing-received", "transmit packet counter advanced in an event without a valid PDU" );
+            if ( tx_pops() != 0 )
+                viol( c, 15, "tx-ring:pdu-removed-without-acknowledge:nothing-received", "a PDU left the transmit ring in an event in which nothing was received" );
+            if ( !c.fails.empty() || c.prune ) return;
+            note_class( c, ( is_new ? 0 : 1 ) + ( data ? 0 : 2 ) + ( path == P_LOST ? 0 : 1610 ), [&]{ return mc::fmt( "%s/%s/no-answer", path == P_LOST ? "lost" : path_name( path ), kind ); } );
+            check_rx_ring( c, "no-answer", 15 );
+            return;
+        }
+        if ( path == P_LOST )
+        {
+            viol( c, 15, "tx:answer-without-anchor", "a PDU was transmitted although nothing was received" );
+            return;
+        }
 
         if ( trans.buffer == nullptr || trans.size < 2 )
         {
             viol( c, 15, mc::fmt( "tx:no-pdu-to-transmit:%s", path_name( path ) ), "the buffer returned no PDU for transmission (documented post condition of next_transmit())" );
             return;
         }
-        const_cast< std::uint8_t* >( trans.buffer )[ 0 ] = trans.buffer[ 0 ] & ~0x10;   // "Issue: #75 More Data not working"
 
         const std::uint16_t th = layout::header( trans );
         const unsigned t_sn = ( th >> 3 ) & 1, t_nesn = ( th >> 2 ) & 1, t_llid = th & 3, t_len = th >> 8;
@@ -423,7 +467,11 @@ struct World
         bool accepted = false;
         if ( toggled )
         {
-            if ( path == P_MIC )
+            RxItem stored[ 40 ];
+            if ( path == P_MIC && rx_ring( stored, 40 ) > ref.up_n )
+                viol( c, 17, is_new ? "mic-failed-pdu-stored-and-acknowledged:new-pdu" : "mic-failed-pdu-stored-and-acknowledged:resent-pdu",
+                    mc::fmt( "%s PDU with a MIC failure (SN %u, NESN was %u) was put into the receive ring (undecryptable payload goes to the upper layer) and acknowledged", kind, sn, r.r_nesn ) );
+            else if ( path == P_MIC )
                 viol( c, 17, is_new ? "nesn-advanced-on-mic-failure:new-pdu" : "nesn-changed-on-mic-failure:resent-pdu",
                     mc::fmt( "acknowledge(read_buffer) for a %s PDU (SN %u, NESN was %u) changed NESN to %u: %s", kind, sn, r.r_nesn, t_nesn,
                         is_new ? "the central takes the PDU as delivered, the payload is lost" : "an already acknowledged PDU is requested again" ) );
@@ -552,10 +600,10 @@ struct World
     {
         if ( ORACLE != 15 ) return;
         ++drains;
-        unsigned char keep_dut[ sizeof dut.raw ]; Hw keep_hw = hw; Ref keep_ref = ref;
-        memcpy( keep_dut, dut.raw, sizeof keep_dut );
+        if ( all.r.empty() ) { regions( all ); keep.resize( all.size() ); }
+        all.save( keep.data() );
         const bool keep_obs = want_obs;
-        pfx = "drain:"; in_drain = true; want_obs = false;
+        in_drain = true; want_obs = false;    // step oracles keep their signature: one defect, one signature
 
         const int budget = 2 * ref.n_in_ring + 8;
         bool done = false, stalled = false;
@@ -565,7 +613,7 @@ struct World
             if ( !c.fails.empty() || c.prune ) break;
             done = ref.n_in_ring == 0 && ref.n_not_at_central == 0 && ( !ref.c_has_last || ref.c_last_acked );
             if ( done ) break;
-            if ( dut->isr_allocate().size == 0 )
+            if ( !dut->can_receive() )
             {   // an *empty* receive ring that cannot provide a buffer is the ring buffer's problem ( C18 ), not a protocol matter
                 stalled = true; ++stall_seen;
                 break;
@@ -580,12 +628,11 @@ struct World
             c.fail( mc::fmt( "drain:not-delivered:%s", ref.n_in_ring || ref.n_not_at_central ? "committed-pdu" : "central-pdu" ),
                 mc::fmt( "after %d fault free connection events: %u committed PDUs still in the transmit ring, %u not at the central, central's last PDU acknowledged: %d",
                     budget, ref.n_in_ring, ref.n_not_at_central, ref.c_last_acked ) );
-        if ( stalled ) c.cls( "drain:receive-ring-empty-but-no-buffer(C18)" );
-        else if ( done ) c.cls( "drain:all-delivered" );
         c.prune = false;
-
-        pfx = ""; in_drain = false; want_obs = keep_obs;
-        memcpy( dut.raw, keep_dut, sizeof keep_dut ); hw = keep_hw; ref = keep_ref;
+        in_drain = false; want_obs = keep_obs;
+        if ( stalled ) note_class( c, 1620, []{ return std::string( "drain:receive-ring-empty-but-no-buffer(C18)" ); } );
+        else if ( done ) note_class( c, 1621, []{ return std::string( "drain:all-delivered" ); } );
+        all.load( keep.data() );
     }
 };
 
